@@ -550,7 +550,7 @@ pub fn run(ctx: &Ctx) -> (Stats, Spec) {
             check_bytes(&mut st, t.as_bytes(), None, "comments-only");
             check_bytes(&mut st, b"a | b", Some(t.as_bytes()), "comments-only-as-ordering");
         }
-        for (f, o) in [("a & b", "x a b"), ("a & b", "b"), ("a & b", "b zz a"), ("exists a # a & b", "a b"), ("c | (a & b)", "zz yy xx c")] {
+        for (f, o) in [("w", "p q r s t u v w"), ("v | w", "p q r s t u v w"), ("exists v # v & w", "p q r s t u v w"), ("w", "x0 x1 x2 x3 x4 x5 x6 x7 x8 x9 x10 x11 x12 x13 x14 x15 x16 x17 x18 x19 w"), ("a & b", "x a b"), ("a & b", "b"), ("a & b", "b zz a"), ("exists a # a & b", "a b"), ("c | (a & b)", "zz yy xx c")] {
             check_bytes(&mut st, f.as_bytes(), Some(o.as_bytes()), "ordering-superset");
         }
         st
